@@ -320,6 +320,25 @@ def parse_new_parameter(srcdir):
     return tuple(out)
 
 
+SETTER_NAN = [("pvalue", "vnacal_new_set_pvalue_limit.c", "significance"), ("p_tolerance", "vnacal_new_set_p_tolerance.c", "tolerance"),
+              ("et_tolerance", "vnacal_new_set_et_tolerance.c", "tolerance")]
+
+
+def parse_setter_nan(srcdir):
+    """vnacal_new_set_{pvalue_limit,p_tolerance,et_tolerance}: does the range test of the double argument start with
+    isnan(<argument>) || ... (fix DC90)?  The test must be the one refusing statement with a VNAERR_USAGE report."""
+    out = {}
+    for key, f, arg in SETTER_NAN:
+        t = re.sub(r"\s+", " ", strip_comments(read(os.path.join(srcdir, f))))
+        m = re.findall(r"if \(([^{}]*?)\) \{ _vnacal_error ?\( ?vcp, VNAERR_USAGE,", t)
+        if len(m) != 1 or not re.search(r"\b%s\b" % arg, m[0]):
+            raise TranslateError("%s: the range test of %s no longer has the accepted shape" % (f, arg))
+        out[key] = bool(re.match(r"^isnan ?\( ?%s ?\) ?\|\|" % arg, m[0].strip()))
+        if "isnan" in m[0] and not out[key]:
+            raise TranslateError("%s: isnan test in an unexpected position: %r" % (f, m[0]))
+    return out
+
+
 def parse_constants(srcdir):
     from fractions import Fraction
     t = strip_comments(read(os.path.join(srcdir, "vnacal_internal.h")))
@@ -378,6 +397,7 @@ def translate(srcdir):
     check_rec, get_rec = parse_new_parameter(srcdir)
     extrap, predefined = parse_constants(srcdir)
     cleanup = parse_cleanup(srcdir)
+    setter_nan = parse_setter_nan(srcdir)
     try:
         orders = errno_orders.extract(srcdir)
     except (errno_orders.OrderError, OSError) as e:
@@ -394,7 +414,7 @@ def translate(srcdir):
             raise TranslateError("vnaerr.h: category VNAERR_%s of the manual is not in the enum" % c)
     return {"enum": enum, "table": full, "explicit": sorted(table), "default": default, "man": man, "z0": z0,
             "add_common_prevalidates": pre, "check_parameter_recurses": check_rec, "get_parameter_recurses": get_rec,
-            "extrapolation": extrap, "predefined": predefined, "cleanup": cleanup,
+            "extrapolation": extrap, "predefined": predefined, "cleanup": cleanup, "setter_nan": setter_nan,
             "orders": orders["orders"], "handles": orders["handles"], "order_notes": orders["notes"],
             "query_getters_readonly": orders["getters"], "add_wrappers": orders["add_wrappers"],
             "orders_digest": errno_orders.digest(orders)}
@@ -454,6 +474,11 @@ def emit(info):
     L.append("(* vnacal_internal.h *)")
     L.append("Definition gen_f_extrapolation : Q := (%d # %d)%%Q." % (info["extrapolation"].numerator, info["extrapolation"].denominator))
     L.append("Definition gen_predefined_parameters : Z := %d." % info["predefined"])
+    L.append("")
+    L.append("(* vnacal_new_set_{pvalue_limit,p_tolerance,et_tolerance}: true when the range test starts with isnan(argument) ||")
+    L.append("   (fix DC90); false: every comparison of the test is false for NaN and NaN is accepted *)")
+    for key, _, _ in SETTER_NAN:
+        L.append("Definition gen_%s_refuses_nan : bool := %s." % (key, "true" if info["setter_nan"][key] else "false"))
     L.append("")
     L.append("(* calls made on the clean-up paths that follow a reported failure *)")
     L.append("Definition gen_cleanup_calls : list (string * list string) :=")
